@@ -264,9 +264,9 @@ def check_crate(rep, crate, cfg, counts):
 
 def check(ctx, rep):
     rep.rule('R19.a', 'no integer cast that narrows or changes signedness, and no float cast, in crux_time::protocol', floor=2)
-    rep.rule('R19.b', 'no unchecked integer arithmetic in crux_time::protocol; checked_* results reach a panic or Err', floor=8)
+    rep.rule('R19.b', 'no unchecked integer arithmetic in crux_time::protocol; checked_* results reach a panic or Err', floor=5)
     rep.rule('R19.c', 'every construction of Instant is guarded by nanos < 1e9 or takes nanos from a range-safe source', floor=3)
-    rep.rule('R19.d', 'in every TryFrom impl each fallible intermediate reaches the Err return', floor=4)
+    rep.rule('R19.d', 'in every TryFrom impl each fallible intermediate reaches the Err return', floor=3)
     counts = {'a': 0, 'c': 0}
     for cfg in ['default', 'timechrono'] + (['allfeat'] if ctx.has('allfeat') else []):
         crate = ctx.crate(cfg, 'crux_time')
